@@ -41,7 +41,7 @@ m = {"version": 1,
      "setup_cmd": "sh checks/setup.sh",
      "hooks": {"guard": "YGM_VERIF_HOOKS",
                "enable": "harnesses are compiled by checks/lib/common.py with -DYGM_VERIF_HOOKS against /repo/include",
-               "baseline_off_cmd": "cmake -G Ninja -S /repo -B /repo/_build >/dev/null && cmake --build /repo/_build && ctest --test-dir /repo/_build -j8 --timeout 900",
+               "baseline_off_cmd": "cmake -G Ninja -S /repo -B /repo/_build >/dev/null && cmake --build /repo/_build && OMPI_ALLOW_RUN_AS_ROOT=1 OMPI_ALLOW_RUN_AS_ROOT_CONFIRM=1 ctest --test-dir /repo/_build -j8 --timeout 900",
                "source_commits": hook_commits, "add_only": True},
      "engines": [{"name": "lean4-proof+correspondence", "path": "checks/check.py", "serves_properties": served,
                   "kind_free_text": "Lean 4.33 theorems (lean/YgmVerif/Props) about executable models (lean/YgmVerif/Model); the same definitions run in the ygm_model driver and are compared with the real headers of /repo run under a deterministic simulated MPI (simmpi/)"}],
